@@ -98,14 +98,14 @@ func init() {
 	register(&Property{
 		ID:        "C10",
 		Title:     "Float chunks return exactly what was appended",
-		Technique: "cross-table agreement over go/types constants: every chunkenc.Encoding is dispatched to the same concrete chunk type by Pool.Get, Pool.Put, FromData and NewEmptyChunk, that type's Encoding() returns the constant, IsValidEncoding accepts exactly the constants; structural sibling rule between the XOR and XOR2 chunk wrappers' shared shape is NOT attempted (different bit formats)",
+		Technique: "cross-table agreement over go/types constants: every chunkenc.Encoding is dispatched to the same concrete chunk type by Pool.Get, Pool.Put, FromData and NewEmptyChunk, that type's Encoding() returns the constant, IsValidEncoding accepts exactly the constants; structural sibling rule between the XOR and XOR2 chunk wrappers' shared shape is NOT attempted (different bit formats); field-transfer map (E11) of Appender(): writer state resumed from the reader's state field by field, role pairing of the XOR base derived from the math.Float64bits operands",
 		DesignRef: "DESIGN.md §5 C10/C11",
-		Level: "Decides only the dispatch layer: bytes written under an encoding are reopened as the chunk type that wrote them (Get/FromData/NewEmptyChunk/Put agree with each type's Encoding()), every encoding is accepted by IsValidEncoding and named, and a value type maps to an existing encoding. The bit-level round trip, Seek and appender resumption are value-level and not decided.",
+		Level: "Decides only the dispatch layer: bytes written under an encoding are reopened as the chunk type that wrote them (Get/FromData/NewEmptyChunk/Put agree with each type's Encoding()), every encoding is accepted by IsValidEncoding and named, and a value type maps to an existing encoding; and that an appender re-opened on existing bytes takes every piece of its codec state from the reader field that plays the same role (XOR base, last timestamp and delta, leading/trailing window, start-timestamp state). The bit-level round trip and Seek are value-level and not decided.",
 		Note:     "Trusted: go/packages, go/types.",
 		Covers:   "tsdb/chunkenc: pool.Get, pool.Put, FromData, NewEmptyChunk, IsValidEncoding, Encoding.String, ValueType.ChunkEncoding, (*T).Encoding() of the six chunk types.",
-		NotCover: "bit-exact round trip of timestamps, start timestamps and values; Seek; resuming an appender on reloaded bytes; chunk capacity.",
-		Run:      func(c *eng.Ctx) { encodingTable(c, "R1", true) },
-		MinObligations: 12,
+		NotCover: "bit-exact round trip of timestamps, start timestamps and values; Seek; chunk capacity.",
+		Run:      runC10,
+		MinObligations: 14,
 	})
 	register(&Property{
 		ID:        "C11",
@@ -113,7 +113,7 @@ func init() {
 		Technique: "cross-table agreement over chunkenc.Encoding (as C10); structural sibling equality (engine E6): the integer and float variants, and the plain and start-timestamp variants, of the histogram append decision have the same body after renaming up to declared differences; go/cfg sibling obligations for memSeries.appendHistogram / appendFloatHistogram",
 		DesignRef: "DESIGN.md §5 C10/C11",
 		Level: "Decides the dispatch layer (as C10) and that the near-copies implementing the same step stay in step: expandIntSpansAndBuckets / expandFloatSpansAndBuckets (bucket-by-bucket reset detection), the appendable decision of the plain and the start-timestamp appenders (integer and float), the gauge variants, and the head's appendHistogram / appendFloatHistogram, " +
-			"each pair equal after renaming except for the declared lines (delta vs. absolute bucket encoding, which last-value field is kept). A re-check dropped or an update moved in one sibling only is reported.",
+			"each pair equal after renaming except for the declared lines (delta vs. absolute bucket encoding, which last-value field is kept). A re-check dropped or an update moved in one sibling only is reported. The four histogram Appender() functions resume every codec-state field of the appender (and of the start-timestamp encoder) from the iterator field of the same name.",
 		Note:     "Trusted: go/packages, go/types; engine checker/eng/siblings.go; difference tables in checker/c10.go.",
 		Covers:   "dispatch tables as C10; expand{Int,Float}SpansAndBuckets; {Histogram,FloatHistogram}{,ST}Appender.appendable; appendableGauge; memSeries.appendHistogram/appendFloatHistogram.",
 		NotCover: "that the decision itself is right (value-level): bucket arithmetic, recoding, schema changes; reading back through iterators.",
@@ -128,8 +128,52 @@ var histRenames = [][2]string{{"FloatHistogram", "Histogram"}, {"Float", "Int"},
 var sibRenames = [][2]string{{"FloatHistograms", "Histograms"}, {"floatHistograms", "histograms"}, {"floatHistogramSeries", "histogramSeries"}, {"FloatHistogram", "Histogram"},
 	{"floatHistogram", "histogram"}, {`\.FH\b`, ".H"}, {`\bFH:`, "H:"}, {"float native", "native"}, {"customBucketsHistograms", "customBucketHistograms"}, {"Float", "Int"}, {"float64", "int64"}, {`\bfh\b`, "h"}}
 
+func runC10(c *eng.Ctx) {
+	encodingTable(c, "R1", true)
+	// ---- R2 resuming an appender on existing bytes: writer state := reader state, role by role ----
+	K := "tsdb/chunkenc:"
+	c.ResumeState("R2", K+"XORChunk.Appender", K+"xorAppender", K+"xorIterator", map[string]string{
+		"v": "val", // xorWrite's current value is what xorRead leaves in the iterator's val
+	}, nil)
+	c.ResumeState("R2", K+"XOR2Chunk.Appender", K+"xor2Appender", K+"xor2Iterator", map[string]string{
+		"v": "baselineV", // the appender XORs new values against a.v; the iterator XORs against it.baselineV (stale markers do not move it)
+	}, nil)
+	// the role pairing of XOR2 is read off the code: the only reader field used as XOR base is baselineV, the only writer field is v
+	for _, side := range [][3]string{{K + "xor2Appender", "a", "v"}, {K + "xor2Iterator", "it", "baselineV"}} {
+		bases := map[string]bool{}
+		for _, f := range c.MethodsOf(side[0]) {
+			ast.Inspect(f.Body, func(n ast.Node) bool {
+				call, ok := n.(*ast.CallExpr)
+				if !ok || eng.ExprString(call.Fun) != "math.Float64bits" || len(call.Args) != 1 {
+					return true
+				}
+				if se, ok := call.Args[0].(*ast.SelectorExpr); ok && eng.ExprString(se.X) == side[1] {
+					bases[se.Sel.Name] = true
+				}
+				return true
+			})
+		}
+		what := "the only field of " + eng.Short(side[0]) + " whose bits enter the XOR is " + side[2]
+		if got := strings.Join(eng.SortedKeys(bases), ","); got == side[2] {
+			c.Pass("R2", side[0], what, "")
+		} else {
+			c.Fail("R2", side[0], what, "", "fields passed to math.Float64bits: {"+got+"}")
+		}
+	}
+}
+
 func runC11(c *eng.Ctx) {
 	encodingTable(c, "R1", false)
+	// ---- R3 resuming an appender on existing bytes ----
+	{
+		K := "tsdb/chunkenc:"
+		c.ResumeState("R3", K+"HistogramChunk.Appender", K+"HistogramAppender", K+"histogramIterator", nil, nil)
+		c.ResumeState("R3", K+"HistogramSTChunk.Appender", K+"HistogramAppender", K+"histogramSTIterator", nil, nil)
+		c.ResumeState("R3", K+"HistogramSTChunk.Appender", K+"stEncoder", K+"histogramSTIterator", nil, nil)
+		c.ResumeState("R3", K+"FloatHistogramChunk.Appender", K+"FloatHistogramAppender", K+"floatHistogramIterator", nil, nil)
+		c.ResumeState("R3", K+"FloatHistogramSTChunk.Appender", K+"FloatHistogramAppender", K+"floatHistogramSTIterator", nil, nil)
+		c.ResumeState("R3", K+"FloatHistogramSTChunk.Appender", K+"stEncoder", K+"floatHistogramSTIterator", nil, nil)
+	}
 	// ---- R2 siblings ----
 	c.SiblingsEqual("R2", "tsdb/chunkenc:expandIntSpansAndBuckets", "tsdb/chunkenc:expandFloatSpansAndBuckets", histRenames, []eng.SiblingDiff{
 		{A: "aCount = aBuckets[aCountIdx]", B: "aCount = aBuckets[aCountIdx].value", Why: "float buckets are stored as xor values"},
